@@ -210,10 +210,11 @@ QUERIES = [
     Query("members4", members4,
           pre=["0 <= cfg < %d" % 2 ** cfg_bits(4), "0 <= fmask < 16", "0 <= ed < 5", "0 <= x < 4", "0 <= y < 4"],
           partitions=lambda tier, seed: (([dict(fmask=f, ed=1, cfg=[lo, lo + 31]) for f in (6, 9) for lo in range(0, 256, 32)] +
-                                          [dict(fmask=1, ed=4, x=1, y=0, cfg=[lo, lo + 63]) for lo in range(0, 256, 64)]) if tier == "quick" else
+                                          [dict(fmask=1, ed=4, x=1, y=0, cfg=[lo, lo + 63]) for lo in range(0, 256, 64)] +
+                                          [dict(fmask=f, ed=0, x=0, cfg=[lo, lo + 63]) for f in (2, 4) for lo in range(0, 256, 64)]) if tier == "quick" else
                                          [dict(fmask=f, ed=e, cfg=[lo, lo + 31]) for f in range(1, 16) for e in range(5) for lo in range(0, 256, 32)]),
           natives=[dict(w0=1, w1=2, w2=3, w3=4, cfg=c, fmask=f, ed=e, x=x, y=y) for (c, f, e, x, y) in
-                   ((0b00111011, 3, 1, 1, 0), (0b10111111, 6, 2, 1, 0), (0b00110111, 9, 3, 3, 0), (0b00111111, 1, 4, 3, 1), (0b00110101, 1, 4, 1, 0), (0b10110101, 1, 4, 1, 0))],
+                   ((0b00111011, 3, 1, 1, 0), (0b10111111, 6, 2, 1, 0), (0b00110111, 9, 3, 3, 0), (0b00111111, 1, 4, 3, 1), (0b00110101, 1, 4, 1, 0), (0b10110101, 1, 4, 1, 0), (38, 2, 0, 0, 0))],
           bounds=lambda tier: {"spaces": 4, "base_dags": "256 encodings (6 edge bits + 2 order bits), those without a linearisation skipped",
                                "definers_of_f": "subsets per tier", "edits": EDITS[:5]},
           outside=["references in the 4-space query"]),
